@@ -35,6 +35,7 @@
   seq_same_termination
   runtime_eq_spec_zones_partial
   inline_eq_spec_zones_partial
+  spec_leaf_dyn_witness
 -/
 import Genshi.Lemmas.InclErase
 import Genshi.Lemmas.InclSpec
@@ -962,6 +963,29 @@ theorem spec_restart_witness :
     renderInline exRestart nA .markup [(['h', '0'], .str nB)] 6
       = renderRuntime exRestart nA .markup [(['h', '0'], .str nB)] 6 ∧
     inH (matchTags exRestart) exRestart = true := by decide +kernel
+
+/-- `a.html` as in `exRestart`, but `<x>` includes `leaf.html` = `<p><xi:include href="${h0}"/></p>` by name: a
+    window-independent fragment in the sense of `inH` (`winfreeL`: an expression-valued include restarts the window
+    in both loader modes) — not in the sense of `inHS` (`winfreeSL`): in place, `b.html`'s `<y/>` stays under the
+    restricted window of the matched element's content. -/
+def exLeafDyn : Files :=
+  [[(nA, ⟨.markup, some [.matchT ['x'] [.text ['['], .select, .text [']']],
+                          .matchT ['y'] [.text ['Y'], .elem ['y'] []],
+                          .elem ['x'] [.include (.static nLeaf) .markup false [] nA]]⟩),
+    (nLeaf, ⟨.markup, some [.elem ['p'] [.include (.dyn [.var ['h', '0']]) .markup false [] nLeaf]]⟩),
+    (nB, ⟨.markup, some [.elem ['y'] []]⟩)]]
+
+/-- why `inHS` asks more of window-independent content than `inH` does: inside `inH` (the loader modes agree),
+    outside `inHS`, and run-time mode differs from the specification -/
+theorem spec_leaf_dyn_witness :
+    inH (matchTags exLeafDyn) exLeafDyn = true ∧ inHS (matchTags exLeafDyn) exLeafDyn = false ∧
+    renderRuntime exLeafDyn nA .markup [(['h', '0'], .str nB)] 7
+      = .ok [.text ['['], .start ['p'], .text ['Y'], .text ['Y'], .start ['y'], .stop ['y'], .stop ['p'], .text [']']] ∧
+    renderInlineReal exLeafDyn nA .markup [(['h', '0'], .str nB)] 7
+      = renderRuntime exLeafDyn nA .markup [(['h', '0'], .str nB)] 7 ∧
+    renderSpec exLeafDyn nA .markup [(['h', '0'], .str nB)] 7
+      = .ok [.text ['['], .start ['p'], .text ['Y'], .start ['y'], .stop ['y'], .stop ['p'], .text [']']] := by
+  decide +kernel
 
 /-- non-vacuity of `runtime_eq_spec_partial`: a file set without match templates (nested and recursive
     includes, a macro crossing the file boundary, fallback, text include, expression-valued href) -/
